@@ -21,6 +21,7 @@ import (
 	"sort"
 	"strings"
 	"sync"
+	"sync/atomic"
 	"testing"
 
 	"github.com/nuts-foundation/nuts-node/crypto/hash"
@@ -46,6 +47,7 @@ type scenario struct {
 	faults   int // length of the fault phase in steps
 	newTx    int // transactions created at nodes during the fault phase
 	hostile  bool
+	profile  string // adversary profile of the fault phase
 	expectNo bool // XOR-colliding difference: the protocol cannot see it (known finding); reported under its own key
 	maxLC    uint32
 	maxDiff  int
@@ -110,7 +112,9 @@ func diameter(n int, edges [][2]int) int {
 var shapes = []dagx.Shape{dagx.Chain, dagx.Fan, dagx.Diamond, dagx.Random}
 
 type suite struct {
-	r        *ev.Run
+	r        *ev.Run // nil in the live-mode child process
+	rand     func(stream string) *rand.Rand
+	fatalf   func(format string, args ...any)
 	dir      string
 	tmpl     map[string]*template
 	capOK    int // IBLT: largest difference for which every trial decoded
@@ -125,9 +129,12 @@ func (su *suite) setTopo(sc *scenario, rnd *rand.Rand) {
 }
 
 // build creates scenario idx of the given class for n nodes; everything is drawn from the scenario's own seeded stream.
-func (su *suite) build(idx int, class string, n int, size int) *scenario {
-	sc := &scenario{idx: idx, class: class, n: n, hostile: true}
-	rnd := su.r.Rand(sc.stream() + "-gen")
+func (su *suite) build(idx int, class string, n int, size int, profile string) *scenario {
+	sc := &scenario{idx: idx, class: class, n: n, hostile: true, profile: profile}
+	rnd := su.rand(sc.stream() + "-gen")
+	if profile == "" {
+		sc.profile = []string{"chaotic", "chaotic", "lossy", "lossy", "quiet"}[rnd.Intn(5)]
+	}
 	su.setTopo(sc, rnd)
 	sc.tmpl = make([]*template, n)
 	sc.init = make([][]*gtx, n)
@@ -209,7 +216,6 @@ func (su *suite) build(idx int, class string, n int, size int) *scenario {
 		for i := 1; i < n; i++ {
 			sc.init[i] = t.txs[:1]
 		}
-		sc.faults = 20 + rnd.Intn(40)
 		sc.newTx = 0
 	case "iblt-overflow":
 		// more difference inside the first page than one IBLT decodes: wide levels keep the clocks below 512
@@ -230,7 +236,6 @@ func (su *suite) build(idx int, class string, n int, size int) *scenario {
 			sc.init[0] = append(append([]*gtx{}, root...), a...)
 			sc.init[1] = append(append([]*gtx{}, root...), sc.w.gen(rnd, shape(), rnd.Intn(20), root)...)
 		}
-		sc.faults = 30 + rnd.Intn(60)
 	case "iblt-overflow-late":
 		// the same inside a later page: all nodes share a prefix that crosses the first page boundary
 		t := su.tmpl["p1"]
@@ -246,7 +251,6 @@ func (su *suite) build(idx int, class string, n int, size int) *scenario {
 		for i := 1; i < n; i++ {
 			sc.init[i] = sc.w.gen(rnd, shape(), rnd.Intn(15), t.txs[:len(t.txs)-rnd.Intn(40)])
 		}
-		sc.faults = 30 + rnd.Intn(60)
 	case "multi-page":
 		// every node holds the long prefix plus its own side branches hanging off transactions in different pages
 		t := su.tmpl["long"]
@@ -280,7 +284,7 @@ func (su *suite) build(idx int, class string, n int, size int) *scenario {
 		}
 		sub := xorZeroSubset(refs)
 		if len(sub) == 0 {
-			su.r.Fatalf("no XOR-zero subset among 300 refs")
+			su.fatalf("no XOR-zero subset among 300 refs")
 		}
 		common := append([]*gtx{}, root...)
 		in := map[int]bool{}
@@ -301,9 +305,12 @@ func (su *suite) build(idx int, class string, n int, size int) *scenario {
 		for i := 1; i < n; i++ {
 			sc.init[i] = common
 		}
-		sc.expectNo, sc.hostile, sc.newTx, sc.faults = true, false, 0, 10
+		sc.expectNo, sc.hostile, sc.newTx, sc.faults = true, false, 0, 30
 	default:
 		panic(class)
+	}
+	if sc.profile == "quiet" {
+		sc.faults = 0
 	}
 	// scenario parameters for the bound and the fingerprint
 	for _, g := range sc.w.order {
@@ -355,7 +362,7 @@ func (su *suite) run(sc *scenario) {
 	defer os.RemoveAll(dir)
 	s := &sim{r: r, sc: sc, w: sc.w, rnd: r.Rand(sc.stream()), ornd: r.Rand(sc.stream() + "-oracle"), stats: map[string]int{}, offered: map[hash.SHA256Hash]bool{}, phase: "setup"}
 	for i := 0; i < sc.n; i++ {
-		n, err := newNode(dir, i, sc.tmpl[i], sc.init[i])
+		n, err := newNode(dir, i, sc.tmpl[i], sc.init[i], 24*3600*1000)
 		if err != nil {
 			r.Fatalf("scenario %d (%s): %v", sc.idx, sc.class, err)
 		}
@@ -520,11 +527,12 @@ func (su *suite) run(sc *scenario) {
 	if forged > 0 {
 		faultKinds = append(faultKinds, "forged")
 	}
-	fp := fmt.Sprintf("%s|N=%d|%s|union=%s|diff=%s|pages=%d|sets=%d|faults=%s|rounds=%d|conv=%v", class, sc.n, sc.topo, bucket(len(sc.w.valid)), bucket(sc.maxDiff),
+	fp := fmt.Sprintf("%s|%s|N=%d|%s|union=%s|diff=%s|pages=%d|sets=%d|faults=%s|rounds=%d|conv=%v", class, sc.profile, sc.n, sc.topo, bucket(len(sc.w.valid)), bucket(sc.maxDiff),
 		sc.pages(), len(distinctSets), strings.Join(faultKinds, "+"), rounds, conv)
+	r.Count("scenarios_by_profile/"+sc.profile, 1)
 	nontrivial := len(distinctSets) > 1 || s.stats["transactions_created_midrun"] > 0
 	r.Case(fp, nontrivial)
-	sample := map[string]any{"scenario": sc.idx, "class": class, "nodes": sc.n, "topology": sc.topo, "union": len(sc.w.valid), "max_missing_at_a_node": sc.maxDiff,
+	sample := map[string]any{"scenario": sc.idx, "class": class, "adversary_profile": sc.profile, "nodes": sc.n, "topology": sc.topo, "union": len(sc.w.valid), "max_missing_at_a_node": sc.maxDiff,
 		"pages": sc.pages(), "fault_steps": faultSteps, "admitted_during_fault_phase": gainedInFault, "fair_rounds_to_converge": rounds, "R": R, "converged": conv,
 		"steps": s.step, "dropped": s.stats["dropped"], "duplicated": s.stats["duplicated"], "delayed": s.stats["delayed"], "stale": s.stats["stale_injected"],
 		"forged": forged, "tampered_offered": s.stats["invalid_offered"], "trace_head": head(s.trace, 12)}
@@ -540,6 +548,7 @@ func head(t []string, n int) []string {
 	return t
 }
 
+var invalidAdmitted atomic.Int64
 var roundsMu sync.Mutex
 var roundsByClass = map[string][]int{}
 var slack = map[string]int{}
@@ -582,13 +591,17 @@ func TestCheck(t *testing.T) {
 		r.Fatalf("tmp: %v", err)
 	}
 	defer os.RemoveAll(dir)
-	su := &suite{r: r, dir: dir, tmpl: map[string]*template{}}
+	su := &suite{r: r, rand: r.Rand, fatalf: r.Fatalf, dir: dir, tmpl: map[string]*template{}}
 	su.capOK, su.capFail = measureIbltCapacity(r.Rand("iblt-capacity"))
 	r.Extra("iblt_capacity_observed", map[string]int{"buckets": dag.IbltNumBuckets, "largest_difference_always_decoded": su.capOK, "smallest_difference_never_decoded": su.capFail})
 	if su.capFail <= 0 || su.capFail > 1150 {
 		r.Fatalf("could not observe the IBLT capacity (%d/%d)", su.capOK, su.capFail)
 	}
 
+	if os.Getenv("VERIF_C07_LIVE") == "only" { // development aid: live mode alone
+		liveMode(t, r, su)
+		return
+	}
 	// templates: long common prefixes, built once
 	var tw sync.WaitGroup
 	var tmu sync.Mutex
@@ -615,9 +628,10 @@ func TestCheck(t *testing.T) {
 	// ---- the scenario list: a pure function of (seed, tier)
 	plan := r.Rand("plan")
 	type spec struct {
-		class string
-		n     int
-		size  int
+		class   string
+		n       int
+		size    int
+		profile string // "": drawn per scenario
 	}
 	var specs []spec
 	small := []string{"disjoint", "behind", "arbitrary", "private", "identical", "disjoint", "arbitrary", "behind"}
@@ -627,16 +641,18 @@ func TestCheck(t *testing.T) {
 		if r.Thorough() && i%40 == 0 {
 			size = 1200 + plan.Intn(800)
 		}
-		specs = append(specs, spec{small[i%len(small)], 2 + (i/len(small)+i)%3, size})
+		specs = append(specs, spec{small[i%len(small)], 2 + (i/len(small)+i)%3, size, ""})
 	}
-	special := []spec{{"far-behind", 2, 0}, {"iblt-overflow", 2, 0}, {"iblt-overflow", 3, 0}, {"iblt-overflow-late", 2, 0},
-		{"multi-page", 2, 120}, {"multi-page", 3, 200}, {"multi-page", 4, 300}, {"xor-collision", 2, 0}}
+	special := []spec{{"far-behind", 2, 0, "quiet"}, {"far-behind", 2, 0, "lossy"}, {"iblt-overflow", 2, 0, "lossy"}, {"iblt-overflow", 3, 0, "quiet"}, {"iblt-overflow-late", 2, 0, "quiet"},
+		{"multi-page", 2, 120, "quiet"}, {"multi-page", 3, 200, "lossy"}, {"multi-page", 4, 300, "chaotic"}, {"multi-page", 4, 300, "quiet"}, {"multi-page", 3, 100, ""}, {"xor-collision", 2, 0, "chaotic"}}
 	if r.Thorough() {
-		for i := 0; i < 3; i++ {
-			special = append(special, spec{"far-behind", 2 + i, 0}, spec{"iblt-overflow", 2 + plan.Intn(3), 0}, spec{"iblt-overflow-late", 2 + plan.Intn(3), 0},
-				spec{"multi-page", 2 + plan.Intn(3), 100 + plan.Intn(600)}, spec{"multi-page", 2 + plan.Intn(3), 100 + plan.Intn(600)})
+		for i := 0; i < 4; i++ {
+			special = append(special, spec{"far-behind", 2 + i%3, 0, ""}, spec{"iblt-overflow", 2 + plan.Intn(3), 0, ""}, spec{"iblt-overflow-late", 2 + plan.Intn(3), 0, ""})
 		}
-		special = append(special, spec{"xor-collision", 3, 0})
+		for i := 0; i < 16; i++ {
+			special = append(special, spec{"multi-page", 2 + plan.Intn(3), 100 + plan.Intn(600), ""})
+		}
+		special = append(special, spec{"xor-collision", 3, 0, "chaotic"})
 	}
 	specs = append(special, specs...) // the long ones first: better use of the worker pool
 
@@ -650,7 +666,7 @@ func TestCheck(t *testing.T) {
 			defer wg.Done()
 			for i := range jobs {
 				sp := specs[i]
-				su.run(su.build(i, sp.class, sp.n, sp.size))
+				su.run(su.build(i, sp.class, sp.n, sp.size, sp.profile))
 			}
 		}()
 	}
@@ -673,9 +689,9 @@ func TestCheck(t *testing.T) {
 	r.Extra("fair_rounds_to_converge_by_class", dist)
 	r.Extra("fair_rounds_to_converge_max", maxRounds)
 	r.Extra("bound_R", "4 + pages(union) + 2*(diameter-1) gossip rounds; hard cap 10*R; one virtual conversation timeout per 6 rounds")
-	r.Extra("invalid_transactions_admitted", 0+r.Violations()*0)
+	r.Extra("invalid_transactions_admitted", invalidAdmitted.Load())
 
-	if r.Thorough() {
+	if r.Thorough() || os.Getenv("VERIF_C07_LIVE") != "" {
 		liveMode(t, r, su)
 	} else {
 		r.Extra("live_mode", "thorough tier only")
